@@ -72,14 +72,18 @@ class World:
 
 
 class AgentLeg:
-    def __init__(self, composite, incl, win_i, prio, keys, late=False):
+    def __init__(self, composite, incl, win_i, prio, keys, late=False, fn='pure'):
+        # fn 'draining': the per-agent function is not idempotent (it hands over the next item of the agent's queue, or
+        # None every other time): a record holds what ONE evaluation per agent returned
+        self.fn = fn
         self.late = late        # the collector is not registered at first; a system registers it during a timestep
         self.composite, self.incl, self.win_i, self.prio = composite, incl, win_i, prio
         self.win = WINDOWS[win_i]
         self.keys = list(keys)
-        self.config = {'composite': composite, 'incl': incl, 'win': win_i, 'prio': prio, 'keys': self.keys, 'late': late}
+        self.config = {'composite': composite, 'incl': incl, 'win': win_i, 'prio': prio, 'keys': self.keys, 'late': late,
+                       'fn': fn}
         self.cn = Canon()
-        self._ops = [['step'], ['swap']] + ([['step_install'], ['install_swap']] if late else [])
+        self._ops = [['step'], ['swap'], ['reinstall']] + ([['step_install'], ['install_swap']] if late else [])
         for k in self.keys:
             self._ops += [['join', k], ['leave', k], ['step_with', 'join', k], ['step_with', 'leave', k]]
 
@@ -99,6 +103,7 @@ class AgentLeg:
             a.add_component(V(a, m, AGENT_VALUES[k]))
             w.agents[k] = a
         w.pending = []
+        w.reinstalls = 0
         w.swaps = 0
         w.gone = set()
         w.install_now = False
@@ -136,7 +141,14 @@ class AgentLeg:
             kw['end'] = end
         if self.prio == 'plus5':
             kw['priority'] = 5
-        w.col = AgentCollector(m, lambda a: a[V].value, comp, self.incl, **kw)
+        w.fncalls = {k: 0 for k in self.keys}
+        w.refcalls = {k: 0 for k in self.keys}
+
+        def draining(a):
+            n = w.fncalls[a.id]
+            w.fncalls[a.id] = n + 1
+            return None if (a[V].value is None or n % 2 == 1) else a[V].value + n
+        w.col = AgentCollector(m, draining if self.fn == 'draining' else (lambda a: a[V].value), comp, self.incl, **kw)
         # the collector is registered BEFORE the priority-0 system: with its default priority it must still run
         # after it and observe the state that timestep's systems left behind
         w.installed = not self.late
@@ -144,6 +156,11 @@ class AgentLeg:
             m.systems.add_system(w.col)
         w.mut = Mut('mut', m, priority=0)
         m.systems.add_system(w.mut)
+
+        class Tail(Core.System):
+            def execute(self_):
+                pass
+        m.systems.add_system(Tail('tail', m, priority=-2))      # something that runs after a default-priority collector
         if self.late:
             class Dummy(Core.System):
                 def execute(self_):
@@ -177,6 +194,8 @@ class AgentLeg:
                 continue
             if op[0] == 'swap' and w.swaps >= 3:
                 continue
+            if op[0] == 'reinstall' and (not w.installed or w.reinstalls >= 2):
+                continue
             if op[0] in ('join', 'leave', 'step_with') and (op[-1] in w.gone):
                 continue         # agents left behind in a replaced environment are not used again
             out.append(op)
@@ -187,7 +206,12 @@ class AgentLeg:
         if self.incl:
             rec['timestep'] = w.t
         for k in res:
-            if AGENT_VALUES[k] is not None:
+            if self.fn == 'draining':
+                n = w.refcalls[k]
+                w.refcalls[k] = n + 1
+                if AGENT_VALUES[k] is not None and n % 2 == 0:
+                    rec[k] = AGENT_VALUES[k] + n
+            elif AGENT_VALUES[k] is not None:
                 rec[k] = AGENT_VALUES[k]
         if self.composite == 'dict':
             rec['n'] = len(res)
@@ -199,7 +223,13 @@ class AgentLeg:
 
     def apply(self, w, op):
         env = w.model.environment
-        if op[0] == 'install_swap':
+        if op[0] == 'reinstall':
+            # between two timesteps the collector is taken out (its own clean_up) and registered again - same object,
+            # same id: from then on it still collects once per scheduled timestep
+            w.col.clean_up()
+            w.model.systems.add_system(w.col)
+            w.reinstalls += 1
+        elif op[0] == 'install_swap':
             # between two timesteps a (warm-up) system is retired and the collector registered in its stead: the number
             # of registered systems stays the same
             if not w.installed:
@@ -274,7 +304,8 @@ class AgentLeg:
         return self.cn(w.model, [w.agents[k] for k in self.keys], w.col, w.mut)
 
     def refstate(self, w):
-        return (tuple(w.res), w.t, repr(w.ref), w.swaps, tuple(sorted(w.gone)), w.installed)
+        return (tuple(w.res), w.t, repr(w.ref), w.swaps, tuple(sorted(w.gone)), w.installed, tuple(sorted(w.refcalls.items())),
+                w.reinstalls)
 
     def outcome(self, w):
         return repr(w.ref[-2:])
@@ -282,7 +313,7 @@ class AgentLeg:
 
 def agent_fn(ctx, item):
     cfg, keys, depth = item
-    h = AgentLeg(cfg[0], cfg[1], cfg[2], cfg[3], keys, late=len(cfg) > 4 and cfg[4])
+    h = AgentLeg(cfg[0], cfg[1], cfg[2], cfg[3], keys, late=len(cfg) > 4 and cfg[4], fn=cfg[5] if len(cfg) > 5 else 'pure')
     r = hbfs.explore(ctx, h, 'agent', max_depth=depth, procs=1)
     ctx.leg('agent', **r)
 
@@ -565,11 +596,15 @@ def run(ctx):
     if quick:
         items = [(cfg, ['a', 'b'], 3 if ctx.small else 4) for cfg in QUICK_CONFIGS]
         items += [(('absent', False, 0, 'default', True), ['a', 'b'], 4), (('dict', True, 1, 'default', True), ['a', 'b'], 4),
-                  (('absent', True, 1, 'default'), ['a', 'b', 'c'], 5)]
+                  (('absent', True, 1, 'default'), ['a', 'b', 'c'], 5),
+                  (('absent', True, 0, 'default', False, 'draining'), ['a', 'b'], 4),
+                  (('dict', False, 1, 'plus5', False, 'draining'), ['a', 'b'], 4)]
     else:
         items = [((c, i, wi, p), ['a', 'b', 'c'], 4) for c in COMPOSITES for i in (False, True)
                  for wi in range(len(WINDOWS)) for p in ('default', 'plus5')]
         items += [(cfg, ['a', 'b'], 5) for cfg in QUICK_CONFIGS]
+        items += [((c, i, wi, 'default', False, 'draining'), ['a', 'b', 'c'], 4) for c in ('absent', 'dict') for i in (False, True)
+                  for wi in (0, 1)]
     par.pmap(ctx, agent_fn, items, procs=ctx.procs)
     ctx.caps.append(f'agent leg: depth bound {items[0][2]} (all histories up to that depth covered)')
 
@@ -585,4 +620,4 @@ def replay(case):
         hbfs._guard(file_case, case)
     else:
         c = case['config']
-        hbfs.replay_case(AgentLeg(c['composite'], c['incl'], c['win'], c['prio'], c['keys'], c.get('late', False)), case)
+        hbfs.replay_case(AgentLeg(c['composite'], c['incl'], c['win'], c['prio'], c['keys'], c.get('late', False), c.get('fn', 'pure')), case)
